@@ -135,6 +135,14 @@ pub fn very_deep() -> BoxedStrategy<Case> {
 
 pub fn streams() -> Vec<Box<dyn AnyStream>> {
     vec![
+        // lexical mirrors of C01's constructor-inside-constructor enumeration
+        Box::new(Stream::<Case> {
+            name: "nested-pairs",
+            quick: 0,
+            thorough: 0,
+            source: Source::Enum(Box::new(|_| Box::new(crate::props::c01::nested_pairs().into_iter().map(|(fi, nd)| (fi, crate::lexgen::lex_of_nd(fi, &nd, &[])))))),
+            check: Box::new(check),
+        }),
         Box::new(Stream::<Case> {
             name: "small-scope",
             quick: 0,
